@@ -168,3 +168,17 @@ def sec1_y(b):
 def ecdsa_ok(r, s, qx, qy, z):
     """ecdsa_valid as a predicate symbol (unfolded where it is proved, opaque where it is only passed on)."""
     return ecdsa_valid(r, s, (qx, qy), z)
+
+
+def sign_with_draws(key, digest, draws):
+    """Replay harness for bits.ecmath.sign with a scripted random source: secrets.randbelow returns the given draws
+    in order (then 1 forever).  Symbolically the RNG is the nondeterministic contract of pyvc/ghosts.py."""
+    import secrets
+    import bits.ecmath
+    it = iter(list(draws))
+    real = secrets.randbelow
+    secrets.randbelow = lambda n: next(it, 1) % n
+    try:
+        return bits.ecmath.sign(key, digest)
+    finally:
+        secrets.randbelow = real
